@@ -7,20 +7,23 @@ open Qx.Driver Qx.C19
 Line protocol of the C19 driver (words separated by single spaces).  The file hash parameter `H` of the model is
 instantiated with the executable MD5 of `Qx.Crypto.Md5` (cross-checked against hashlib by tools/crypto_selftest.py).
 
-  reset ibb <bsS> <bsR> <hash 0|1> <content>      → ok|R …|S …|P …
+  reset ibb <bsS> <bsR> <hash 0|1> <dev> <content>      → ok|R …|S …|P …
       bsS / bsR = `ibbBlockSize` of the sending / receiving manager; the offer announces size = |content| and, with
       hash = 1, MD5(content).   content := hex:<hex> | zero:<n> | ff:<n> | pat:<n>
-  deliver | drop | dup | swap | flip <bit> | eclose | wsid | wsender
+      dev = the receiver's output device: buf (takes everything) | pw:<k> (≤ k bytes per write) |
+            full:<m> (holds m bytes, then takes 0) | fail:<m> (a write beyond byte m fails with -1)
+  deliver | drop | dup | swap | flip <bit> | eclose | wsid | wsender [<which other JID>]
   inj <sender> <sid> (open <bs> | data <seq> <hex|-> | close)
-      → <replies>|R <state> <error> <len> <digest> f<finished signals> e<error signals>
+      → <replies>|R <state> <error> <len> <digest> d<job's byte counter> f<finished signals> e<error signals>
+          (len / digest: what the DEVICE holds)
                  |S <state> <error> <bytes read> f<…> e<…>|P <pending request>
         replies := `-` | r,r…   r := [@]ok | [@]e:<condition>     (@ = addressed to a third party)
         digest  := `-` (empty) | hex (≤ 24 bytes) | md5:<hex>
         pending := `-` | open:<bs> | data:<seq>:<len>:<digest> | close
   run <n>     n honest deliveries (stops when nothing is pending) → ok<k>,err<m>|R …|S …|P …
 
-  reset socks <hash 0|1> <size announced 0|1> hex:<announced content>   → ok|R <state> <error> <len> <digest> f<n>
-  chunk <hex|->  |  disc                                                 → R <state> <error> <len> <digest> f<n>
+  reset socks <hash 0|1> <size announced 0|1> <dev> hex:<announced content>   → ok|R <state> <error> <len> <digest> d<n> f<n>
+  chunk <hex|->  |  disc                                                 → R <state> <error> <len> <digest> d<n> f<n>
 -/
 
 def H : List UInt8 → List UInt8 := Qx.Crypto.md5
@@ -33,6 +36,14 @@ def parseContent (s : String) : Option (List UInt8) :=
   | ["zero", n] => n.toNat?.map fun n => List.replicate n 0
   | ["ff", n] => n.toNat?.map fun n => List.replicate n 255
   | ["pat", n] => n.toNat?.map fun n => (List.range n).map patByte
+  | _ => none
+
+def parseDev (s : String) : Option Dev :=
+  match s.splitOn ":" with
+  | ["buf"] => some .unlimited
+  | ["pw", k] => k.toNat?.map Dev.perWrite
+  | ["full", m] => m.toNat?.map Dev.fullAfter
+  | ["fail", m] => m.toNat?.map Dev.failAt
   | _ => none
 
 def hexOrDash (s : String) : Option (List UInt8) := if s = "-" then some [] else fromHex s
@@ -66,7 +77,7 @@ structure D where
   socks : Recv
 
 def showR (r : Recv) : String :=
-  s!"R {showState r.state} {showErr r.error} {r.acc.length} {digest r.acc} f{r.finishedSignals} e{r.errorSignals}"
+  s!"R {showState r.state} {showErr r.error} {r.acc.length} {digest r.acc} d{r.acc.length} f{r.finishedSignals} e{r.errorSignals}"
 
 def showTail (d : D) : String :=
   let s := d.st.s
@@ -76,7 +87,7 @@ def obs (d : D) (rs : List Reply) : String :=
   (if rs.isEmpty then "-" else ",".intercalate (rs.map showReply)) ++ showTail d
 
 def showSocks (r : Recv) : String :=
-  s!"R {showState r.state} {showErr r.error} {r.acc.length} {digest r.acc} f{r.finishedSignals}"
+  s!"R {showState r.state} {showErr r.error} {r.acc.length} {digest r.acc} d{r.acc.length} f{r.finishedSignals}"
 
 def apply (d : D) (op : Op) : D × String :=
   let x := step H d.st op
@@ -108,18 +119,18 @@ def flag (s : String) : Option Bool := if s = "1" then some true else if s = "0"
 
 def stepLine (d : D) (line : String) : D × String :=
   match words line with
-  | ["reset", "ibb", bsS, bsR, h, content] =>
-    match bsS.toNat?, bsR.toNat?, flag h, parseContent content with
-    | some bS, some bR, some h, some data =>
-      let d' : D := { d with st := init bS bR data.length (if h then some (H data) else none) data, total := data.length }
+  | ["reset", "ibb", bsS, bsR, h, dev, content] =>
+    match bsS.toNat?, bsR.toNat?, flag h, parseDev dev, parseContent content with
+    | some bS, some bR, some h, some dev, some data =>
+      let d' : D := { d with st := initDev dev bS bR data.length (if h then some (H data) else none) data, total := data.length }
       (d', "ok" ++ showTail d')
-    | _, _, _, _ => (d, "bad-op")
-  | ["reset", "socks", h, sz, content] =>
-    match flag h, flag sz, parseContent content with
-    | some h, some sz, some data =>
-      let r := sinit (if sz then data.length else 0) (if h then some (H data) else none)
+    | _, _, _, _, _ => (d, "bad-op")
+  | ["reset", "socks", h, sz, dev, content] =>
+    match flag h, flag sz, parseDev dev, parseContent content with
+    | some h, some sz, some dev, some data =>
+      let r := sinitDev dev (if sz then data.length else 0) (if h then some (H data) else none)
       ({ d with socks := r }, "ok|" ++ showSocks r)
-    | _, _, _ => (d, "bad-op")
+    | _, _, _, _ => (d, "bad-op")
   | ["chunk", hx] =>
     match hexOrDash hx with
     | some b => let r := sstep H d.socks (.chunk b); ({ d with socks := r }, showSocks r)
@@ -133,6 +144,9 @@ def stepLine (d : D) (line : String) : D × String :=
   | ["eclose"] => apply d .earlyClose
   | ["wsid"] => apply d .wrongSid
   | ["wsender"] => apply d .wrongSender
+  -- the number only selects which JID string the harness uses (another account, another resource of the sender's
+  -- account, its bare JID, a case variant, a look-alike domain): for the code and the model each is "not the sender"
+  | ["wsender", _] => apply d .wrongSender
   | "inj" :: snd :: sid :: k =>
     match snd.toNat?, sid.toNat?, parseKind k with
     | some a, some b, some k => apply d (.inject a b k)
